@@ -203,6 +203,7 @@ def matchPlans : List TStep → List TStep → Bool
   | [.endStr _], [.tok, .slurp] => true
   | [p], [q, .slurp] => kindEq p q
   | [p, .blank, .endStr _], [q, .endStr _] => kindEq p q
+  | [p, .blank, .endStrSplit n], [q, .endStr _] => kindEq p q && decide (0 < n)
   | [p, .typeList], [q, .typeList] => kindEq p q
   | p :: .blank :: P, q :: .blank :: Q => kindEq p q && matchPlans P Q
   | _, _ => false
@@ -386,6 +387,8 @@ inductive Fits : List TStep → List TStep → List TVal → List TVal → Prop
   | last (p q : TStep) (v : TVal) (hk : kindEq p q = true) (hw : FieldWF q v) : Fits [p] [q, .slurp] [v] [v]
   | lastRest (p q : TStep) (v : TVal) (u u' : Bool) (t : Bytes) (hk : kindEq p q = true) (hw : FieldWF q v) (ht : RestWF t) :
       Fits [p, .blank, .endStr u] [q, .endStr u'] [v, .s t] [v, .s (normRest u t)]
+  | lastSplit (p q : TStep) (v : TVal) (n : Nat) (u' : Bool) (t : Bytes) (hk : kindEq p q = true) (hw : FieldWF q v)
+      (hn : 0 < n) (ht : RestWF t) : Fits [p, .blank, .endStrSplit n] [q, .endStr u'] [v, .s t] [v, .s t]
   | types (p q : TStep) (v : TVal) (ts : List Nat) (hk : kindEq p q = true) (hw : FieldWF q v) (ht : ∀ t ∈ ts, t ≤ 65535) :
       Fits [p, .typeList] [q, .typeList] [v, .nl ts] [v, .nl ts]
   | cons (p q : TStep) (v : TVal) (P Q : List TStep) (vs vs' : List TVal) (hk : kindEq p q = true) (hw : FieldWF q v)
@@ -414,6 +417,60 @@ theorem rdata_last_tokens (zl : St) (w rest : Bytes) (hL : LS zl false true true
   obtain ⟨z, t, b, zl', zr, ze, ht, hs, hbv, hbe, _⟩ := stream_word_nl zl w rest false true true hL hw.2 hw.1
   obtain ⟨n1, n2, n3⟩ := nlWordTok_plain z w ze (Or.inl zr)
   exact ⟨t, b, zl', hs, by rw [ht]; exact n2, by rw [ht]; exact n3, by rw [ht]; exact n1, hbv, hbe⟩
+
+theorem splitLoop_ne_nil (n fuel : Nat) (s : Bytes) : splitLoop n fuel s ≠ [] := by
+  cases fuel with
+  | zero => simp [splitLoop]
+  | succ f => unfold splitLoop; split <;> simp
+
+theorem joinWith_cons (sep : Byte) (w : Bytes) (ws : List Bytes) (h : ws ≠ []) :
+    joinWith sep (w :: ws) = w ++ sep :: joinWith sep ws := by
+  cases ws with
+  | nil => exact absurd rfl h
+  | cons _ _ => rfl
+
+/-- the pieces `splitN` cuts a plain string into, printed with blanks between them up to the end of the line, are put
+    together again by `endingToString` — also when the last piece is empty (length a multiple of `n`) -/
+theorem split_tokens (n : Nat) (hn : 0 < n) (fuel : Nat) (s : Bytes) (hp : s.all plain = true) (zl : St)
+    (hL : LS zl false true true) (rest acc : Bytes) :
+    endingToString (stream zl (joinWith 32 (splitLoop n fuel s) ++ 10 :: rest)) acc = some (acc ++ s) := by
+  have single : ∀ (s : Bytes), s.all plain = true → ∀ (zl : St), LS zl false true true → ∀ acc : Bytes,
+      endingToString (stream zl (s ++ 10 :: rest)) acc = some (acc ++ s) := by
+    intro s hp zl hL acc
+    by_cases hs : s = []
+    · subst hs
+      obtain ⟨b, zl', hst, hbv, _, _⟩ := stream_nl_first zl rest false true true hL
+      simp [hst, endingToString, hbv]
+    · obtain ⟨tk, b, zl', hst, htk, hte, htv, hbv, _⟩ := rdata_last_tokens zl s rest hL ⟨hs, plain_wordOK s hp hs⟩
+      have z : ¬ zString = zNewline := by decide
+      simp [hst, endingToString, htv, hte, htk, hbv, z]
+  induction fuel generalizing s zl acc with
+  | zero => simpa [splitLoop, joinWith] using single s hp zl hL acc
+  | succ f ih =>
+    unfold splitLoop
+    by_cases hle : n ≤ s.length
+    · rw [if_pos hle, joinWith_cons _ _ _ (splitLoop_ne_nil n f _)]
+      have hc : (s.take n).all plain = true := by
+        rw [List.all_eq_true] at hp ⊢
+        intro b hb; exact hp b (List.mem_of_mem_take hb)
+      have hd : (s.drop n).all plain = true := by
+        rw [List.all_eq_true] at hp ⊢
+        intro b hb; exact hp b (List.mem_of_mem_drop hb)
+      have hne : s.take n ≠ [] := by
+        intro e
+        have h1 : (s.take n).length = min n s.length := List.length_take
+        rw [e, List.length_nil] at h1
+        omega
+      obtain ⟨t1, b1, zl1, hs1, htk1, hte1, htv1, hbv1, hbe1, hL1⟩ :=
+        rdata_word_tokens zl (s.take n) (joinWith 32 (splitLoop n f (s.drop n)) ++ 10 :: rest) hL ⟨hne, plain_wordOK _ hc hne⟩
+      rw [List.append_assoc, List.cons_append, hs1]
+      have z1 : ¬ zString = zNewline := by decide
+      have z2 : ¬ zBlank = zNewline := by decide
+      have z3 : ¬ zBlank = zString := by decide
+      simp only [endingToString, htv1, hte1, htk1, hbv1, hbe1, z1, z2, z3, Bool.false_eq_true, ↓reduceIte]
+      rw [ih (s.drop n) hd zl1 hL1 (acc ++ s.take n), List.append_assoc, List.take_append_drop]
+    · rw [if_neg hle]
+      simpa [joinWith] using single s hp zl hL acc
 
 /-- a word, then ` T` for every type of a list, then the end of the line: the word's token, and behind it tokens from
     which the type-bitmap loop reads the list -/
@@ -533,6 +590,26 @@ theorem text_roundtrip (P Q : List TStep) (vals vals' : List TVal) (hf : Fits P 
       simp [printPlan], ?_⟩
     rw [List.append_assoc, List.cons_append, hs1, hs2, hq t1 _ _ acc htk1 hte1 htv1]
     simp [parsePlan, endingToString, hbv1, hbe1, htv2, hte2, hbv2, htk2, zNewline, zString, zBlank]
+  | lastSplit p q v n u' t hk hw hn ht =>
+    obtain ⟨w, hp, hword, hq⟩ := field_word p q v hk hw origin
+    have hj : ∃ fuel, joinWith 32 (splitN t n) = joinWith 32 (splitLoop n fuel t) := by
+      unfold splitN
+      split
+      · exact ⟨0, rfl⟩
+      · exact ⟨_, rfl⟩
+    obtain ⟨fuel, hj⟩ := hj
+    obtain ⟨t1, b1, zl1, hs1, htk1, hte1, htv1, hbv1, hbe1, hL1⟩ :=
+      rdata_word_tokens zl w (joinWith 32 (splitN t n) ++ 10 :: rest) hL hword
+    refine ⟨w ++ 32 :: joinWith 32 (splitN t n), by
+      rw [printPlan_cons p _ _ _ w (hp _), printPlan_blank,
+        printPlan_cons (.endStrSplit n) [] [.s t] [] (joinWith 32 (splitN t n)) (by simp [printStep])]
+      simp [printPlan], ?_⟩
+    rw [List.append_assoc, List.cons_append, hs1, hq t1 _ _ acc htk1 hte1 htv1]
+    have z2 : ¬ zBlank = zNewline := by decide
+    have z3 : ¬ zBlank = zString := by decide
+    simp only [parsePlan, endingToString, hbv1, hbe1, z2, z3, Bool.false_eq_true, ↓reduceIte]
+    rw [hj, split_tokens n hn fuel t ht.2 zl1 hL1 rest []]
+    simp
   | types p q v ts hk hw hts =>
     obtain ⟨w, hp, hword, hq⟩ := field_word p q v hk hw origin
     obtain ⟨t1, toks, hs, htk, hte, htv, hpar⟩ := types_tokens ts hts zl w rest hL hword []
